@@ -105,6 +105,9 @@ func addressFromList(s *slip.Scope, list slip.List, depth int) (sa syscall.Socka
 		addr []byte
 		port int
 	)
+	if len(list) != 2 {
+		slip.TypePanic(s, depth, "address", list, "list of an address and a port")
+	}
 	switch ta := list[0].(type) {
 	case slip.String:
 		addr = netip.MustParseAddr(string(ta)).AsSlice()
